@@ -18,4 +18,8 @@ pub assume_specification<'a, K, V, S, A, Q>[ std::collections::HashMap::<K, V, S
             None => !vstd::std_specs::hash::contains_borrowed_key(old(m)@, k) && final(m)@ == old(m)@,
         });
 
+/// Option::replace: stores the new value, returns the old one
+pub assume_specification<T>[ Option::<T>::replace ](o: &mut Option<T>, value: T) -> (r: Option<T>)
+    ensures *final(o) == Some(value), r == *old(o);
+
 } // verus!
